@@ -102,4 +102,46 @@ theorem walkPath_step_follows_source (seg : String) (rest : List String) (node :
     · by_cases hx : isExportedName fname = true <;> cases ext <;> by_cases hr : rest.isEmpty = true <;>
         simp [resolveStepOn, hg, hx, hr, lkField]
 
+/-! ## `resolveTemplatedExpr` (`$n` sources) -/
+
+/-- **the loop of `resolveTemplatedExpr` is the loop of `resolveExpr`**: the two skeletons are the
+same function of the same ten conditions, so `walkPath_step_follows_source` speaks for both; a
+change to one loop and not the other breaks this -/
+theorem templatedStep_is_resolveStep :
+    Generated.Decisions.templatedStep = Generated.Decisions.resolveStep := rfl
+
+/-- **the head of `resolveTemplatedExpr` follows the source**: the first segment is `$n`, `n`
+counts the additional arguments from one; a path of one segment is the argument itself, a longer
+one is walked from it -/
+theorem resolveTemplated_head_follows_source (pattern : String) (args : List Node) :
+    ctx.resolveTemplatedExpr pattern args =
+      (let paths := identPaths pattern
+       let idx := (paths.head?.bind fun first => BCtx.parseInt (String.ofList (first.toList.drop 1)))
+       let i : Int := (idx.getD 0) - 1
+       match Generated.Decisions.templatedHead paths.isEmpty idx.isNone (decide (i < 0))
+           (decide ((args.length : Int) ≤ i)) (decide (paths.length = 1)) with
+       | "return" | "index--; return" => none
+       | "index--; node=additionalArgs[index]; return node, true" => args[i.toNat]?
+       | "index--; node=additionalArgs[index]; continue" =>
+         (match args[i.toNat]? with
+          | some node => ctx.walkPath (paths.drop 1) node (node.exprType ctx.env)
+          | none => none)
+       | _ => none) := by
+  unfold BCtx.resolveTemplatedExpr Generated.Decisions.templatedHead
+  cases hp : identPaths pattern with
+  | nil => simp
+  | cons first rest =>
+    simp only [List.head?_cons, Option.bind_some, List.isEmpty_cons, List.drop_succ_cons, List.drop_zero]
+    rcases Option.eq_none_or_eq_some (BCtx.parseInt (String.ofList (first.toList.drop 1))) with hi | ⟨idx, hi⟩
+    · have hi' : BCtx.parseInt (String.ofList first.toList.tail) = none := by simpa using hi
+      simp [hi']
+    · simp only [hi, Option.getD_some, Option.isNone_some]
+      by_cases h1 : idx - 1 < 0
+      · simp [h1]
+      · by_cases h2 : (args.length : Int) ≤ idx - 1
+        · simp [h1, h2]
+        · cases rest with
+          | nil => cases args[(idx - 1).toNat]? <;> simp [h1, h2]
+          | cons r rs => cases args[(idx - 1).toNat]? <;> simp [h1, h2]
+
 end Convergen.Bridge.Decisions
